@@ -287,7 +287,7 @@ func (s *c09Script) roundTrip(req *http.Request, n int) (*http.Response, error) 
 		}
 		outcome := 0
 		if s.gets <= 3 {
-			outcome = s.ch.Free("reconnect-outcome", 5) // later reconnects are always served
+			outcome = s.ch.Free("reconnect-outcome", 7) // later reconnects are always served
 		}
 		switch outcome {
 		case 0:
@@ -310,6 +310,11 @@ func (s *c09Script) roundTrip(req *http.Request, n int) (*http.Response, error) 
 		case 3:
 			s.saw404 = true
 			return s.resp(404, "", nil), nil
+		case 5, 6:
+			// a definite refusal that carries a JSON-RPC error body (as the SDK's own server sends them):
+			// the stream is gone; the call may fail, but it must not be left hanging
+			s.saw404 = true
+			return s.resp(map[int]int{5: 404, 6: 400}[outcome], "application/json", io.NopCloser(strings.NewReader(`{"jsonrpc":"2.0","id":1,"error":{"code":-32600,"message":"session not found"}}`))), nil
 		default:
 			if idx+1 >= len(s.events) {
 				return s.resp(200, "text/event-stream", io.NopCloser(strings.NewReader(""))), nil
